@@ -420,6 +420,51 @@ fn survivors() -> Vec<crate::xrun::XCase> {
     }).collect()
 }
 
+/// `macro_rules!` fragments inside the item: an `expr` fragment in an array length, a discriminant, a const-generic
+/// argument or a method body of an impl item, and a `ty` fragment behind a reference, must MEAN the same after
+/// `derive_ex` re-emitted the item (attribute entry) or repeated a field type in generated code (both entries) as
+/// they do without `derive_ex`: rustc honours the invisible group of a fragment only as long as it is the original
+/// one. Terminal state = (item kind, expression context around the fragment, entry point); oracle = the value the
+/// same macro-generated definition has without derive_ex (worked out by hand, `$e = 1 + 2`).
+fn fragment_survivors() -> Vec<crate::xrun::XCase> {
+    // (context with the fragment `$e = 1 + 2`, its value)
+    let ctxs: [(&str, i64); 10] = [("$e * 2", 6), ("2 * $e", 6), ("$e - $e", 0), ("($e) * 2", 6), ("$e as TY * 2", 6), ("[$e * 2, 1][0]", 6), ("$f.pow(2)", 9), ("<TY>::pow($e, 2)", 9), ("4 - $e", 1), ("8 / $e", 2)];
+    let mut out = Vec::new();
+    let mut push = |what: String, defs: String, expr: String, expected: String| {
+        out.push(crate::xrun::XCase {
+            text: defs.clone(),
+            code: format!("{defs}\npub fn run() -> String {{ {expr} }}\n"),
+            expected,
+            atoms: [format!("fragment-survivor={what}")].into_iter().collect(),
+            nontrivial: true,
+            detail: json!({"kind": "fragment-survivor", "what": what, "program": defs}),
+            what: format!("macro_rules! fragment inside the item: {what}"),
+            inner: 1,
+            symptom: "fragment-in-the-item-changes-meaning".into(),
+            must_compile: true,
+        });
+    };
+    for (entry, head) in [("attr", "#[derive_ex(Clone)]"), ("derive", "#[derive(Ex)] #[derive_ex(Clone)]")] {
+        for (ctx, val) in ctxs.iter() {
+            let u = ctx.replace("TY", "usize");
+            let i = ctx.replace("TY", "isize");
+            push(format!("{entry}: array length `{u}`"), format!("pub mod m {{ use derive_ex::{{derive_ex, Ex}}; macro_rules! mk {{ ($n:ident, $e:expr, $f:expr) => {{ {head} pub struct $n(pub [u8; {u}]); }} }} mk!(X, 1 + 2, 1 as usize + 2); }}"), "format!(\"{}\", ::core::mem::size_of::<m::X>())".into(), format!("{val}"));
+            push(format!("{entry}: array length `{u}` of a parameter type"), format!("pub mod m {{ use derive_ex::{{derive_ex, Ex}}; macro_rules! mk {{ ($n:ident, $e:expr, $f:expr) => {{ {head} pub struct $n<T>(pub [T; {u}]); }} }} mk!(X, 1 + 2, 1 as usize + 2); }}"), format!("{{ let x = m::X([7u8; {val}]); let y = ::core::clone::Clone::clone(&x); format!(\"{{}}\", y.0.len()) }}"), format!("{val}"));
+            push(format!("{entry}: discriminant `{i}`"), format!("pub mod m {{ use derive_ex::{{derive_ex, Ex}}; macro_rules! mk {{ ($n:ident, $e:expr, $f:expr) => {{ {head} pub enum $n {{ P = {i}, Q }} }} }} mk!(X, 1 + 2, 1 as isize + 2); }}"), "format!(\"{};{}\", m::X::P as isize, m::X::Q as isize)".into(), format!("{};{}", val, val + 1));
+            push(format!("{entry}: const argument `{{ {u} }}`"), format!("pub mod m {{ use derive_ex::{{derive_ex, Ex}}; #[derive(Clone)] pub struct Arr<const N: usize>(pub [u8; N]); macro_rules! mk {{ ($n:ident, $e:expr, $f:expr) => {{ {head} pub struct $n(pub Arr<{{ {u} }}>); }} }} mk!(X, 1 + 2, 1 as usize + 2); }}"), "format!(\"{}\", ::core::mem::size_of::<m::X>())".into(), format!("{val}"));
+        }
+        for (ty, what) in [("&'a $t", "reference"), ("*const $t", "raw pointer"), ("::core::option::Option<&'a $t>", "nested reference")] {
+            push(format!("{entry}: `ty` fragment `dyn Tr + Send` behind a {what}"), format!("pub mod m {{ use derive_ex::{{derive_ex, Ex}}; pub trait Tr {{}} macro_rules! mk {{ ($n:ident, $t:ty) => {{ {head} pub struct $n<'a>(pub {ty}, pub ::core::marker::PhantomData<&'a u8>); }} }} mk!(X, dyn Tr + Send); }}"), "format!(\"{}\", dxrt::impls!(m::X<'static>: ::core::clone::Clone))".into(), "true".into());
+        }
+    }
+    // the body of a user impl is part of the re-emitted item
+    for (ctx, val) in ctxs.iter() {
+        let u = ctx.replace("TY", "usize");
+        push(format!("impl item: method body `{u}`"), format!("pub mod m {{ use derive_ex::derive_ex; #[derive(Clone)] pub struct X(pub usize); macro_rules! mk {{ ($e:expr, $f:expr) => {{ #[derive_ex(AddAssign)] impl ::core::ops::Add<usize> for X {{ type Output = X; fn add(self, r: usize) -> X {{ let k: usize = {u}; X(self.0 + r + k) }} }} }} }} mk!(1 + 2, 1 as usize + 2); }}"), "{ let mut x = m::X(10); x += 100; format!(\"{};{}\", (m::X(10) + 100).0, x.0) }".into(), format!("{};{}", 110 + val, 110 + val));
+    }
+    out
+}
+
 pub fn run(ctx: &Ctx, rep: &mut Report) {
     let thorough = ctx.tier.is_thorough();
     rep.rule = "terminal state = (item kind, derived list, visibility, generics/where-clause, discriminant, and a sequence of up to 3 attributes from a pool of 9 foreign + 10 helper-named + derive_ex attributes at each of the type / variant / field placements, bounded by the total number of deviations) plus a fixed family of failing inputs (bad arguments, malformed helper attributes, unsupported item kinds, impl items); distinct by input text; non-trivial = at least one attribute placed".into();
@@ -461,7 +506,8 @@ pub fn run(ctx: &Ctx, rep: &mut Report) {
         }
     }
     if ctx.replay.is_none() {
-        let sv = survivors();
+        let mut sv = survivors();
+        sv.extend(fragment_survivors());
         rep.stats.states += sv.len() as u64;
         rep.stats.transitions += sv.len() as u64;
         rep.stats.terminals += sv.len() as u64;
